@@ -1,9 +1,20 @@
-"""C15 -- clone() yields an equal, independent, identically behaving copy."""
+"""C15 -- clone() yields an equal, independent, identically behaving copy.
+
+One CASE is a JSON-able spec: how to build an element / segment / beam, a HISTORY of attribute assignments applied after
+construction (through every settable public attribute discovered by introspection: buffers, parameters, plain attributes,
+properties with a setter over the whole MRO; for segments also through the by-name handles), some of the assigned values
+being torch.nn.Parameter.  `make(spec)` builds a fresh, equal object each time.  `examine` then checks every clause of the
+property on it: equal OBSERVABLE STATE (every buffer/parameter/public attribute/public property, recursively, dtype, device),
+no shared storage, identical tracking of both beam types, independence under later mutation (in place under no_grad, through
+.data, an SGD step on a tracking loss, by assignment) in both directions.
+"""
 import inspect
 import json
+import os
 import warnings
 
 import torch
+from torch import nn
 
 import common
 import introspect
@@ -12,8 +23,8 @@ from common import coq_list, coq_string
 from props import c14 as J
 
 PID = "C15"
-PREAMBLE = """From Coq Require Import List Bool String.
-From Cheetah Require Import Ops.ClassTableSpec Ops.Clone.
+PREAMBLE = """From Coq Require Import List Bool String ZArith.
+From Cheetah Require Import Ops.ClassTableSpec Ops.Clone Ops.CloneHistory.
 Import ListNotations. Open Scope string_scope."""
 F12_ATTRS = J.F12_ATTRS
 KNOWN_TEXT = {
@@ -21,33 +32,318 @@ KNOWN_TEXT = {
     "F12-Screen": "Screen.clone() drops is_blocking (not in defining_features) [F12]",
     "F12-Undulator": "Undulator.clone() drops is_active (not in defining_features) [F12]",
     "F12-SpaceChargeKick": "SpaceChargeKick.clone() raises TypeError: defining_features lists grid_shape, which is not a constructor parameter [F12]",
+    "F80-RBend": "RBend.clone() recomputes dipole_e1/e2 as (dipole_e - angle/2) + angle/2: the clone's face angles (and its tracking) differ "
+                 "from the original's by one rounding error [F80]",
 }
+# observables of an RBend that go through the subtraction/addition of angle/2 (finding F80)
+F80_KEYS = {"_e1", "_e2", "dipole_e1", "dipole_e2", "rbend_e1", "rbend_e2"}
+NOVALUE = object()
+SKIPPED = {}          # class -> assignable slots that the class does not declare and no feature depends on (not assigned in histories)
 
 
-# ---------------------------------------------------------------- helpers
-def digest(v):
-    return json.dumps(introspect.describe(v), default=str, sort_keys=True)
+# ================================================================ the public surface of an object, by introspection
+def class_properties(cls):
+    props = {}
+    for k in cls.__mro__:
+        for a, v in vars(k).items():
+            if isinstance(v, property) and a not in props and not a.startswith("_"):
+                props[a] = v
+    return props
 
 
-def attr_digests(e, row):
-    return [(p, digest(getattr(e, p)) if hasattr(e, p) else "<no attribute>") for p in introspect.settable(row)]
+def is_module_ref(v):
+    return isinstance(v, nn.Module) or (isinstance(v, (list, tuple)) and len(v) > 0 and all(isinstance(x, nn.Module) for x in v))
 
 
-def tensors_of(obj):
-    """every tensor reachable from a module: buffers, parameters, tensor attributes (recursively through sub-modules)"""
+def settable_surface(obj):
+    """every public name of `obj` that can be assigned: registered buffers and parameters, plain instance attributes, properties
+    with a setter anywhere in the MRO (handles to sub-elements and names shadowed by a read-only property are not assignable)"""
+    props = class_properties(type(obj))
+    names = []
+    for n in list(obj._buffers) + list(obj._parameters) + list(vars(obj)):
+        if n.startswith("_") or n == "training" or n in names:
+            continue
+        if n in props and props[n].fset is None:
+            continue
+        try:
+            v = getattr(obj, n)
+        except Exception:
+            continue
+        if is_module_ref(v):
+            continue
+        names.append(n)
+    for a, p in props.items():
+        if p.fset is not None and a not in names:
+            names.append(a)
+    return names
+
+
+def literal_choices(obj, attr):
+    try:
+        for p in introspect.signature(type(obj)):
+            if p.name == attr:
+                return introspect._literal_choices(p)
+    except Exception:
+        pass
+    return None
+
+
+def new_value(rng, obj, attr, cur, keep=False):
+    """a valid new value of the same kind (shape, dtype, sign, finiteness) as the current one, or NOVALUE"""
+    if isinstance(cur, torch.Tensor):
+        if not cur.dtype.is_floating_point or cur.numel() == 0:
+            return NOVALUE
+        base = cur.detach().clone()
+        if keep:
+            return base
+        f = rng.choice([0.5, 0.7, 1.1, 1.25, 2.0, 3.0])
+        z = rng.choice([0.0625, 0.125, 0.3])
+        new = torch.where(base == 0, torch.full_like(base, z), base * f)
+        new = torch.where(torch.isfinite(base), new, base)
+        if "survival" in attr or "probabilit" in attr:
+            new = new.clamp(0.0, 1.0)
+        return new
+    if isinstance(cur, bool):
+        return not cur
+    if isinstance(cur, int):
+        return cur + 1
+    if isinstance(cur, tuple) and cur and all(isinstance(x, int) and not isinstance(x, bool) for x in cur):
+        return tuple(x + 1 for x in cur)
+    if isinstance(cur, str):
+        if attr == "name":
+            return cur + "_r"
+        ch = literal_choices(obj, attr)
+        alts = [c for c in (ch or []) if c != cur]
+        return rng.choice(alts) if alts else NOVALUE
+    return NOVALUE
+
+
+def enc(v):
+    if isinstance(v, torch.Tensor):
+        return {"tensor": v.detach().tolist(), "dtype": str(v.dtype)}
+    if isinstance(v, tuple):
+        return {"tuple": [enc(x) for x in v]}
+    return v
+
+
+def dec(d):
+    if isinstance(d, dict) and "tensor" in d:
+        return torch.tensor(d["tensor"], dtype=getattr(torch, d["dtype"].split(".")[-1]))
+    if isinstance(d, dict) and "tuple" in d:
+        return tuple(dec(x) for x in d["tuple"])
+    return d
+
+
+# ================================================================ histories
+def is_segment(x):
+    import cheetah
+    return isinstance(x, cheetah.Segment)
+
+
+def nodes_of(root):
+    """[(index path, node)] of an element tree (a beam or a leaf element is a single node)"""
     out = []
-    seen = set()
+
+    def walk(e, path):
+        out.append((path, e))
+        if is_segment(e):
+            for i, c in enumerate(e.elements):
+                walk(c, path + (i,))
+    walk(root, ())
+    return out
+
+
+def route(rng, root, path, p_handle=0.5):
+    """the index path as a list of steps, some of them through the parent's by-name handle (`segment.<name>`, or
+    `segment.<name>[k]` where several elements share the name)"""
+    steps, t = [], root
+    for i in path:
+        c = t.elements[i]
+        h = t.__dict__.get(c.name) if isinstance(c.name, str) else None
+        step = ["e", i]
+        if rng.random() < p_handle:
+            if h is c:
+                step = ["h", c.name, None]
+            elif isinstance(h, list):
+                ks = [k for k, x in enumerate(h) if x is c]
+                if ks:
+                    step = ["h", c.name, ks[0]]
+        steps.append(step)
+        t = c
+    return steps
+
+
+def resolve(root, steps):
+    t = root
+    for s in steps:
+        if s[0] == "e":
+            t = t.elements[s[1]]
+        else:
+            t = getattr(t, s[1])
+            if s[2] is not None:
+                t = t[s[2]]
+    return t
+
+
+def apply_op(root, op):
+    t = resolve(root, op["path"])
+    v = dec(op["value"])
+    if op.get("param"):
+        v = nn.Parameter(v)
+    setattr(t, op["attr"], v)
+
+
+def is_declared(node, a):
+    """the class declares `a`: constructor parameter, defining feature, or property"""
+    try:
+        if a in [p.name for p in introspect.signature(type(node))]:
+            return True
+    except Exception:
+        pass
+    try:
+        if a in list(node.defining_features):
+            return True
+    except Exception:
+        pass
+    return a in class_properties(type(node))
+
+
+def feature_digest(node):
+    out = []
+    try:
+        names = list(node.defining_features)
+    except Exception:
+        names = []
+    try:
+        names += [p.name for p in introspect.signature(type(node)) if p.name not in ("device", "dtype")]
+    except Exception:
+        pass
+    for f in dict.fromkeys(names):
+        try:
+            v = getattr(node, f)
+            out.append((f, len(v) if isinstance(v, nn.ModuleList) else digest(v)))
+        except Exception:
+            out.append((f, "<unreadable>"))
+    return json.dumps(out, default=str)
+
+
+def gen_history(rng, root, n_ops=None, p_param=0.3, sweep=False, surface_log=None, skipped_log=None):
+    """Random valid assignments executed on `root` (a scratch instance) and recorded.  sweep: every settable attribute of every
+    node once (shuffled) and a few of them a second time; otherwise n_ops random ones.  An assignment that the implementation
+    rejects is not part of the history."""
+    cands = []
+    for path, node in nodes_of(root):
+        for a in settable_surface(node):
+            if a == "name" and path != ():
+                continue           # Segment builds its by-name handles at construction: renaming a child is outside the property
+            cands.append((path, a))
+    if not cands:
+        return []
+    if sweep:
+        order = rng.sample(cands, len(cands)) + [rng.choice(cands) for _ in range(min(4, len(cands)))]
+        if len(order) > 40:
+            order = order[:40]
+    else:
+        order = [rng.choice(cands) for _ in range(n_ops if n_ops is not None else rng.randrange(1, 7))]
+    ops = []
+    for path, a in order:
+        node = resolve(root, [["e", i] for i in path])
+        try:
+            cur = getattr(node, a)
+        except Exception:
+            continue
+        forced = a in getattr(node, "_parameters", {})
+        par = isinstance(cur, torch.Tensor) and cur.dtype.is_floating_point and (forced or rng.random() < p_param)
+        v = new_value(rng, node, a, cur, keep=par and rng.random() < 0.25)
+        if v is NOVALUE:
+            continue
+        op = {"path": route(rng, root, path), "attr": a, "value": enc(v), "param": bool(par)}
+        declared = is_declared(node, a)
+        try:
+            before = None if declared else feature_digest(node)
+            apply_op(root, op)
+            if not declared and feature_digest(node) == before:
+                # an inherited slot the class does not use (e.g. the `length` buffer of a zero-length Aperture): it is neither a
+                # constructor parameter nor a feature nor a property and no feature depends on it -- not an attribute of the class
+                setattr(node, a, cur)
+                if skipped_log is not None:
+                    skipped_log.setdefault(type(node).__name__, set()).add(a)
+                continue
+        except Exception:
+            continue
+        ops.append(op)
+        if surface_log is not None:
+            surface_log.setdefault(type(node).__name__, set()).add(a)
+    return ops
+
+
+# ================================================================ case specs -> objects
+def make(spec):
+    """a fresh object for the case spec (equal objects on every call)"""
+    import cheetah
+    dtype = getattr(torch, spec["dtype"].split(".")[-1])
+    if spec["kind"] == "element":
+        cls = getattr(cheetah, spec["cls"])
+        kw = {k: dec(v) for k, v in spec["kwargs"].items()}
+        if "resolution" in kw and isinstance(kw["resolution"], list):
+            kw["resolution"] = tuple(kw["resolution"])
+        if "dtype" in kw:
+            kw["dtype"] = getattr(torch, str(kw["dtype"]).split(".")[-1])
+        if spec["cls"] == "Segment":
+            kw["elements"] = [cheetah.Drift(length=torch.tensor(0.3, dtype=dtype), name="probe_d"), cheetah.Marker(name="probe_m")]
+        for k in spec.get("param_kwargs", []):
+            kw[k] = nn.Parameter(kw[k])
+        obj = cls(**kw)
+    elif spec["kind"] == "segment":
+        obj = realgen.build(spec["lattice"], dtype=dtype)
+    else:
+        obj = realgen.build_beam(spec["beam"], dtype=dtype)
+    for op in spec.get("history", []):
+        try:
+            apply_op(obj, op)
+        except Exception:
+            pass            # deterministic: the same op is skipped on every call
+    return obj
+
+
+def element_spec(cls_name, kw, dtype):
+    d = {}
+    for k, v in kw.items():
+        if k == "elements":
+            continue
+        d[k] = str(v) if isinstance(v, torch.dtype) else enc(v)
+    return {"kind": "element", "cls": cls_name, "kwargs": d, "dtype": str(dtype), "history": [], "param_kwargs": []}
+
+
+# ================================================================ observation
+def tensors_of(obj):
+    """every tensor reachable from an object: buffers, parameters, tensor attributes (public or private, inside tuples, lists,
+    dicts, attached beams), recursively through sub-modules"""
+    out, seen = [], set()
+
+    def val(owner, k, v, depth):
+        if isinstance(v, torch.Tensor):
+            out.append((owner + "." + k, v))
+        elif isinstance(v, nn.Module):
+            walk(v)
+        elif isinstance(v, (list, tuple)) and depth < 3:
+            for i, x in enumerate(v):
+                val(owner, f"{k}[{i}]", x, depth + 1)
+        elif isinstance(v, dict) and depth < 3:
+            for i, x in v.items():
+                val(owner, f"{k}[{i!r}]", x, depth + 1)
 
     def walk(m):
         if id(m) in seen:
             return
         seen.add(id(m))
-        for k, v in list(vars(m).items()):
-            if isinstance(v, torch.Tensor):
-                out.append((type(m).__name__ + "." + k, v))
+        own = type(m).__name__
         for k, v in list(m._buffers.items()) + list(m._parameters.items()):
-            if isinstance(v, torch.Tensor):
-                out.append((type(m).__name__ + "." + k, v))
+            val(own, k, v, 0)
+        for k, v in list(vars(m).items()):
+            if k in ("_buffers", "_parameters", "_modules") or (k.startswith("_") and k.endswith("_hooks")):
+                continue
+            val(own, k, v, 0)
         for c in m.children():
             walk(c)
     walk(obj)
@@ -62,55 +358,153 @@ def shared_storage(a, b):
     return [(sa[t.untyped_storage().data_ptr()], n) for n, t in tensors_of(b) if t.numel() and t.untyped_storage().data_ptr() in sa]
 
 
-def full_snapshot(m):
-    """bitwise snapshot of an element / segment / beam: tensors and plain attributes"""
-    import cheetah
-    out = []
+def observe(root):
+    """{(index path, key): normalised value} for ALL observable state: class, every registered buffer and parameter, every public
+    instance attribute, every public property (whole MRO) read without arguments; recursively for segments.  References to
+    sub-elements (by-name handles) are recorded as index paths inside the own tree."""
+    index = {id(n): p for p, n in nodes_of(root)}
 
-    def walk(e, path):
-        out.append((path, type(e).__name__, getattr(e, "name", None)))
-        for n, t in sorted(((n, t) for n, t in list(e._buffers.items()) + list(e._parameters.items()) if isinstance(t, torch.Tensor)), key=lambda x: x[0]):
-            out.append((path, n, t.detach().clone()))
-        for k, v in sorted(vars(e).items()):
+    def norm(v, depth=0):
+        if isinstance(v, torch.Tensor):
+            return ("T", v.detach().clone())
+        if isinstance(v, nn.ModuleList):
+            return ("children", len(v))
+        if isinstance(v, nn.Module):
+            return ("ref", index.get(id(v), "<object outside the own tree>"))
+        if isinstance(v, (list, tuple)) and depth < 4:
+            return ("seq", type(v).__name__, [norm(x, depth + 1) for x in v])
+        if isinstance(v, dict) and depth < 4:
+            return ("dict", sorted((str(k), norm(x, depth + 1)) for k, x in v.items()))
+        if v is None or isinstance(v, (bool, int, float, str)):
+            return ("v", v)
+        if isinstance(v, (torch.dtype, torch.device)):
+            return ("v", str(v))
+        return ("opaque", type(v).__name__)
+
+    out = {}
+    for path, e in nodes_of(root):
+        out[(path, "<class>")] = ("v", type(e).__name__)
+        for a in class_properties(type(e)):
+            try:
+                out[(path, a)] = norm(getattr(e, a))
+            except Exception as ex:
+                out[(path, a)] = ("raises", type(ex).__name__)
+        for k, v in list(e._buffers.items()) + list(e._parameters.items()):
+            out.setdefault((path, k), norm(v))
+        for k, v in vars(e).items():
             if k.startswith("_") or k == "training":
                 continue
-            if isinstance(v, torch.Tensor):
-                out.append((path, k, v.detach().clone()))
-            elif isinstance(v, (bool, int, float, str, tuple)):
-                out.append((path, k, v))
-        if isinstance(e, cheetah.Segment):
-            for i, c in enumerate(e.elements):
-                walk(c, path + (i,))
-    walk(m, ())
+            out.setdefault((path, k), norm(v))
     return out
 
 
-def snap_equal(a, b):
-    if len(a) != len(b):
+def norm_equal(x, y):
+    if x[0] != y[0]:
         return False
-    for x, y in zip(a, b):
-        if x[:2] != y[:2]:
-            return False
-        if isinstance(x[2], torch.Tensor) or isinstance(y[2], torch.Tensor):
-            if not introspect.same_value(x[2], y[2]):
-                return False
-        elif x[2] != y[2]:
-            return False
-    return True
+    if x[0] == "T":
+        return introspect.same_value(x[1], y[1]) and x[1].device == y[1].device
+    if x[0] == "seq":
+        return x[1] == y[1] and len(x[2]) == len(y[2]) and all(norm_equal(u, v) for u, v in zip(x[2], y[2]))
+    if x[0] == "dict":
+        return [k for k, _ in x[1]] == [k for k, _ in y[1]] and all(norm_equal(u[1], v[1]) for u, v in zip(x[1], y[1]))
+    if x[0] == "v":
+        return type(x[1]) is type(y[1]) and x[1] == y[1]
+    return x[1:] == y[1:]
 
 
-def mutate(m, rng, cheetah, how):
-    """change the object: 'inplace' adds to every tensor in place; 'assign' re-assigns attributes."""
+def show(x):
+    if x is None:
+        return "<absent>"
+    if x[0] == "T":
+        return introspect.describe(x[1])
+    if x[0] == "seq":
+        return [show(u) for u in x[2]]
+    if x[0] == "dict":
+        return {k: show(u) for k, u in x[1]}
+    return x[1] if len(x) == 2 else list(x[1:])
+
+
+def obs_diffs(oa, ob, classes=None):
+    """differences between two observations as JSON-able dicts {path, attr, cls, a, b}"""
+    diffs = []
+    for key in sorted(set(oa) | set(ob), key=lambda k: (k[0], k[1])):
+        x, y = oa.get(key), ob.get(key)
+        if x is None or y is None or not norm_equal(x, y):
+            cls = (oa.get((key[0], "<class>")) or ob.get((key[0], "<class>")) or ("v", "?"))[1]
+            d = {"kind": "attr", "path": list(key[0]), "cls": cls, "attr": key[1], "a": show(x), "b": show(y)}
+            d["_raw"] = (x, y)
+            diffs.append(d)
+    return diffs
+
+
+def is_f80(d, oa):
+    """one rounding error in a face angle of an RBend (the constructor adds angle/2 back to rbend_e = dipole_e - angle/2)"""
+    if d["cls"] != "RBend" or d["attr"] not in F80_KEYS:
+        return False
+    x, y = d["_raw"]
+    if x is None or y is None or x[0] != "T" or y[0] != "T":
+        return False
+    a, b = x[1], y[1]
+    ang = oa.get((tuple(d["path"]), "angle"))
+    if a.shape != b.shape or a.dtype != b.dtype or ang is None or ang[0] != "T":
+        return False
+    try:
+        scale = torch.maximum(torch.maximum(a.abs(), b.abs()), (ang[1].abs() / 2).to(a.dtype).expand_as(a) if ang[1].numel() == 1 else (ang[1].abs() / 2).to(a.dtype))
+        return bool(torch.all((a - b).abs() <= 2 * torch.finfo(a.dtype).eps * scale))
+    except Exception:
+        return False
+
+
+def clean(diffs):
+    return [{k: v for k, v in d.items() if k != "_raw"} for d in diffs]
+
+
+# ================================================================ mutation
+def mutate(m, rng, cheetah, how, beam=None):
+    """change the object after cloning.  inplace: add to every reachable tensor in place under no_grad; data: through .data;
+    sgd: one SGD step on a loss of a tracked beam over the leaf parameters (others: in place); assign: re-assign attributes."""
     n = 0
-    if how == "inplace":
+    if how in ("inplace", "data", "sgd"):
+        done = set()
+        ts = [t for _, t in tensors_of(m) if t.numel()]
+        if how == "sgd":
+            leaves = [t for t in ts if isinstance(t, nn.Parameter) and t.is_leaf and t.requires_grad]
+            uniq = list({id(t): t for t in leaves}.values())
+            if uniq and beam is not None and hasattr(m, "track"):
+                try:
+                    out = m.track(beam)
+                    loss = sum((b.double() ** 2).sum() for _, b in out.named_buffers() if b.dtype.is_floating_point and b.requires_grad)
+                    if isinstance(loss, torch.Tensor):
+                        loss.backward()
+                except Exception:
+                    pass
+                gmax = max([float(t.grad.abs().max()) for t in uniq if t.grad is not None and torch.isfinite(t.grad).all()] + [0.0])
+                if gmax > 0:
+                    for t in uniq:
+                        if t.grad is not None and not torch.isfinite(t.grad).all():
+                            t.grad = None
+                    before = [t.detach().clone() for t in uniq]
+                    torch.optim.SGD(uniq, lr=0.25 / gmax).step()
+                    for t, b in zip(uniq, before):
+                        if not torch.equal(t.detach(), b):
+                            done.add(t.untyped_storage().data_ptr())
+                            n += 1
         with torch.no_grad():
-            for _, t in tensors_of(m):
-                if t.numel() and t.dtype.is_floating_point:
+            for t in ts:
+                p = t.untyped_storage().data_ptr()
+                if p in done:
+                    continue
+                done.add(p)
+                if how == "data":
+                    if t.dtype.is_floating_point:
+                        t.data.mul_(1.5).add_(0.25)
+                    else:
+                        t.data.add_(1)
+                elif t.dtype.is_floating_point:
                     t.add_(0.375)
-                    n += 1
-                elif t.numel():
+                else:
                     t.add_(1)
-                    n += 1
+                n += 1
         return n
 
     def walk(e):
@@ -122,19 +516,23 @@ def mutate(m, rng, cheetah, how):
                 e.elements.append(cheetah.Marker(name="appended_by_mutation"))
                 n += 1
             return
-        for k, v in list(e._buffers.items()):
-            if isinstance(v, torch.Tensor) and v.dtype.is_floating_point:
-                setattr(e, k, v * 2.0 + 0.125)
-                n += 1
-        for k, v in list(vars(e).items()):
-            if k.startswith("_") or k in ("training", "name"):
+        for k in settable_surface(e):
+            if k == "name":
                 continue
-            if isinstance(v, bool):
-                setattr(e, k, not v)
-                n += 1
-            elif isinstance(v, int):
-                setattr(e, k, v + 1)
-                n += 1
+            try:
+                v = getattr(e, k)
+                if isinstance(v, torch.Tensor) and v.dtype.is_floating_point:
+                    nv = v.detach() * 2.0 + 0.125
+                    setattr(e, k, nn.Parameter(nv) if k in e._parameters else nv)
+                    n += 1
+                elif isinstance(v, bool):
+                    setattr(e, k, not v)
+                    n += 1
+                elif isinstance(v, int):
+                    setattr(e, k, v + 1)
+                    n += 1
+            except Exception:
+                pass
     walk(m)
     if hasattr(m, "name"):
         try:
@@ -150,110 +548,145 @@ def gen_beam(rng, bt, dtype):
     return b, realgen.build_beam(b, dtype=dtype)
 
 
-def compare_clone(rows, a, c):
-    """attribute-wise equality original vs clone (bit-equal tensors, same dtype), recursively for segments"""
-    import cheetah
-    if isinstance(a, cheetah.Segment):
-        diffs, _ = J.compare_trees(rows, a, c)
-        # no int->tensor drift is acceptable for clone: re-compare strictly
-        strict = []
-        stack = [((), a, c)]
-        while stack:
-            p, x, y = stack.pop()
-            if type(x) is not type(y):
-                continue
-            if isinstance(x, cheetah.Segment):
-                if len(x.elements) == len(y.elements):
-                    for i, (u, v) in enumerate(zip(x.elements, y.elements)):
-                        if u is v:
-                            strict.append({"path": list(p + (i,)), "kind": "identity", "cls": type(u).__name__, "attr": "<same object>"})
-                        stack.append((p + (i,), u, v))
-        return diffs + strict
-    diffs = []
-    if type(a) is not type(c):
-        return [{"kind": "class", "a": type(a).__name__, "b": type(c).__name__}]
-    if a.name != c.name:
-        diffs.append({"kind": "name", "a": a.name, "b": c.name})
-    row = rows[type(a).__name__]
-    for p in dict.fromkeys(introspect.settable(row) + [f for f in a.defining_features if f != "name"]):
-        if not hasattr(a, p):
-            continue
-        if not hasattr(c, p) or not introspect.same_value(getattr(a, p), getattr(c, p)):
-            diffs.append({"kind": "attr", "cls": type(a).__name__, "attr": p, "a": introspect.describe(getattr(a, p)),
-                          "b": introspect.describe(getattr(c, p, "<missing>"))})
-    return diffs
+def track_or_exc(x, spec, dtype):
+    try:
+        return x.track(realgen.build_beam(spec, dtype=dtype))
+    except Exception as ex:
+        return f"{type(ex).__name__}"
 
 
-def examine(rows, make, rng, cheetah, dtype, has_sck=False, is_beam=False):
-    """All C15 clauses for one object given by the thunk `make` (fresh, equal objects on each call).
-    Returns (known tags, problems, clone or None)."""
+def same_track(u, v, loose=None):
+    if isinstance(u, str) or isinstance(v, str):
+        return isinstance(u, str) and isinstance(v, str) and u == v
+    if J.beams_bit_equal(u, v):
+        return True
+    if loose:
+        return type(u) is type(v) and not realgen.beams_close(u, v, rtol=loose, atol=loose * 1e-3)
+    return False
+
+
+def examine(spec, rng, cheetah, light=False):
+    """All C15 clauses for one case.  Returns (known tags, problems, clone or None)."""
     known, bad = [], []
-    a = make()
+    dtype = getattr(torch, spec["dtype"].split(".")[-1])
+    is_beam = spec["kind"] == "beam"
+    a = make(spec)
+    has_sck = any(type(n).__name__ == "SpaceChargeKick" for _, n in nodes_of(a)) if not is_beam else False
     try:
         c = a.clone()
     except Exception as ex:
         msg = f"{type(ex).__name__}: {ex}"
-        if "grid_shape" in msg and isinstance(ex, TypeError) and (type(a).__name__ == "SpaceChargeKick" or has_sck):
+        if "grid_shape" in msg and isinstance(ex, TypeError) and has_sck:
             return ["F12-SpaceChargeKick"], [], None
         return [], [f"clone() raised {msg[:200]}"], None
     if c is a:
         bad.append("clone() returned the same object")
-    if is_beam:
-        if type(a) is not type(c):
-            bad.append("clone has a different type")
-        ba, bc = dict(a.named_buffers()), dict(c.named_buffers())
-        for k in ba:
-            if k not in bc or not introspect.same_value(ba[k], bc[k]):
-                bad.append(f"beam buffer {k} differs (or dtype/shape): {introspect.describe(ba[k])} vs {introspect.describe(bc.get(k))}"[:300])
-        diffs = []
-    else:
-        diffs = compare_clone(rows, a, c)
-    f12 = [d for d in diffs if d.get("kind") == "attr" and (d["cls"], d["attr"]) in F12_ATTRS]
-    other = [d for d in diffs if d not in f12]
+    # ---- equal observable state (values, dtype, device), no object of the original inside the clone
+    oa, oc = observe(a), observe(c)
+    diffs = obs_diffs(oa, oc)
+    f12 = [d for d in diffs if (d["cls"], d["attr"]) in F12_ATTRS]
+    f80 = [d for d in diffs if d not in f12 and is_f80(d, oa)]
+    other = [d for d in diffs if d not in f12 and d not in f80]
     for d in f12:
         known.append("F12-" + d["cls"])
+    if f80:
+        known.append("F80-RBend")
     if other:
-        bad.append(f"clone differs from the original: {other[0]}")
+        bad.append(f"clone differs from the original in observable state: {clean(other[:3])}")
+    if not is_beam:
+        ida = {id(n) for _, n in nodes_of(a)}
+        same = [list(p) for p, n in nodes_of(c) if id(n) in ida]
+        if same:
+            bad.append(f"the clone contains element objects of the original at {same[:3]}")
     sh = shared_storage(a, c)
     if sh:
         bad.append(f"clone shares tensor storage with the original: {sh[:3]}")
-    # identical behaviour
+    loose = 2e3 * torch.finfo(dtype).eps if f80 else None
+    # ---- identical behaviour
     if not is_beam and not other:
         for bt in ("particle", "parameter"):
-            spec, b = gen_beam(rng, bt, dtype)
-            try:
-                ref = make().track(b)
-            except Exception:
+            bspec, _ = gen_beam(rng, bt, dtype)
+            ref = track_or_exc(make(spec), bspec, dtype)
+            if isinstance(ref, str):
                 continue
-            try:
-                out = make().clone().track(realgen.build_beam(spec, dtype=dtype))
-                if not J.beams_bit_equal(ref, out) and not f12:
-                    bad.append(f"clone tracks a {bt} beam differently")
-            except Exception as ex:
-                if not f12:
-                    bad.append(f"clone.track raised {type(ex).__name__}: {ex}"[:200])
-    # independence under later mutation, both directions, in place and by assignment
-    for how in ("inplace", "assign"):
+            out = track_or_exc(make(spec).clone(), bspec, dtype)
+            if not same_track(ref, out, loose) and not f12:
+                bad.append(f"clone tracks a {bt} beam differently ({out if isinstance(out, str) else 'values differ'})")
+            elif f80 and not f12 and not J.beams_bit_equal(ref, out):
+                known.append("F80-RBend")
+    # ---- independence under later mutation, both directions
+    hows = ("inplace", "assign") if light else ("inplace", "data", "sgd", "assign")
+    bspec = None if is_beam else gen_beam(rng, rng.choice(["particle", "parameter"]), dtype)[0]
+    pspec = None if is_beam else realgen.gen_parameter_beam(rng)
+    for how in hows:
         for direction in ("original", "clone"):
-            x = make()
+            x = make(spec)
             try:
                 y = x.clone()
             except Exception:
                 break
             victim, other_obj = (x, y) if direction == "original" else (y, x)
-            before = full_snapshot(other_obj)
+            t0 = track_or_exc(other_obj, bspec, dtype) if bspec else None
+            before = observe(other_obj)
             try:
-                n = mutate(victim, rng, cheetah, how)
+                mutate(victim, rng, cheetah, how, beam=realgen.build_beam(pspec, dtype=dtype) if pspec else None)
             except Exception:
                 continue
-            if not snap_equal(before, full_snapshot(other_obj)):
-                bad.append(f"mutating the {direction} ({how}) changed the other object")
+            t1 = track_or_exc(other_obj, bspec, dtype) if bspec else None
+            after = observe(other_obj)
+            dd = obs_diffs(before, after)
+            if dd:
+                bad.append(f"modifying the {direction} ({how}) changed the other object: {clean(dd[:2])}")
+            elif bspec and not same_track(t0, t1):
+                bad.append(f"modifying the {direction} ({how}) changed how the other object tracks")
     return sorted(set(known)), bad, c
 
 
-# ---------------------------------------------------------------- stages
-def element_cases(run, rows_l, cheetah, variants):
-    rows = {r["cname"]: r for r in rows_l}
+def shrink(spec, rng_seed, cheetah, light):
+    """drop history operations / parameter flags while the case still fails"""
+    import random
+
+    def fails(s):
+        try:
+            _, bad, _ = examine(s, random.Random(rng_seed), cheetah, light)
+            return bool(bad)
+        except Exception:
+            return False
+    best = spec
+    ops = list(spec.get("history", []))
+    if len(ops) > 12 or not fails(best):
+        return best
+    i = 0
+    while i < len(ops):
+        trial = dict(best, history=ops[:i] + ops[i + 1:])
+        if fails(trial):
+            ops = trial["history"]
+            best = trial
+        else:
+            i += 1
+    for k in list(best.get("param_kwargs", [])):
+        trial = dict(best, param_kwargs=[q for q in best["param_kwargs"] if q != k])
+        if fails(trial):
+            best = trial
+    return best
+
+
+# ================================================================ stages
+def digest(v):
+    return json.dumps(introspect.describe(v), default=str, sort_keys=True)
+
+
+def attr_digests(e, row):
+    return [(p, digest(getattr(e, p)) if hasattr(e, p) else "<no attribute>") for p in introspect.settable(row)]
+
+
+def report(run, known):
+    for k in known:
+        run.count("known_" + k)
+        run.known(KNOWN_TEXT[k])
+
+
+def element_cases(run, rows_l, cheetah, variants, surface_log):
     terms, cases, problems = [], [], []
     for row in rows_l:
         cls = getattr(cheetah, row["cname"])
@@ -266,25 +699,39 @@ def element_cases(run, rows_l, cheetah, variants):
                 except Exception as ex:
                     problems.append(({"cls": row["cname"], "variant": variant, "dtype": str(dtype)}, [f"could not build a probe: {type(ex).__name__}: {ex}"[:200]]))
                     continue
-
-                def make(kw=kw, cls=cls):
-                    k2 = {k: (v.clone() if isinstance(v, torch.Tensor) else v) for k, v in kw.items()}
-                    if "elements" in k2:
-                        k2["elements"] = [e.clone() for e in kw["elements"]]
-                    return cls(**k2)
-                known, bad, c = examine(rows, make, run.rng, cheetah, dtype)
-                desc = {"cls": row["cname"], "kwargs": introspect.describe_kwargs(kw), "nondefault": nd}
-                run.add_case(["elem", desc], len(nd) >= 2)
+                spec = element_spec(row["cname"], kw, dtype)
+                # variant 0: freshly constructed; 1: every settable attribute assigned (sweep); 2+: random history, parameters
+                # given to the constructor
+                if variant >= 2:
+                    spec["param_kwargs"] = [k for k, v in kw.items() if isinstance(v, torch.Tensor) and v.dtype.is_floating_point
+                                            and run.rng.random() < 0.4]
+                if variant >= 1:
+                    try:
+                        spec["history"] = gen_history(run.rng, make(spec), sweep=(variant % 2 == 1), p_param=0.3, surface_log=surface_log, skipped_log=SKIPPED)
+                    except Exception as ex:
+                        problems.append((spec, [f"could not generate a history: {type(ex).__name__}: {ex}"[:200]]))
+                        continue
+                try:
+                    known, bad, c = examine(spec, run.rng, cheetah)
+                except Exception as ex:
+                    known, bad, c = [], [f"examining the case raised {type(ex).__name__}: {ex}"[:300]], None
+                desc = dict(spec, nondefault=nd)
+                run.add_case(["elem", spec], len(nd) >= 2)
                 run.count("cls_" + row["cname"])
                 run.count("dtype_" + str(dtype).split(".")[-1])
                 run.count("vectorised" if vs else "scalar")
-                for k in known:
-                    run.count("known_" + k)
-                    run.known(KNOWN_TEXT[k])
+                run.count("history_ops", len(spec["history"]))
+                run.count("history_ops_parameter", sum(1 for o in spec["history"] if o["param"]))
+                run.count("case_with_history" if spec["history"] else "case_fresh")
+                run.count("ctor_parameter_kwargs", len(spec["param_kwargs"]))
+                report(run, known)
                 if bad:
                     problems.append((desc, bad))
-                # Coq case: model clone over digests
-                a = make()
+                    continue
+                if "F80-RBend" in known:
+                    continue                      # digests of rounded face angles are not comparable as strings
+                # Coq case: model clone over digests of the CURRENT state (after the history)
+                a = make(spec)
                 try:
                     req = {p.name: kw[p.name] for p in introspect.signature(cls) if p.default is inspect.Parameter.empty and p.name in kw}
                     d0 = cls(**req)
@@ -298,7 +745,7 @@ def element_cases(run, rows_l, cheetah, variants):
     return terms, cases, problems
 
 
-def segment_cases(run, rows, cheetah, n):
+def segment_cases(run, cheetah, n, surface_log):
     problems = []
     for i in range(n):
         lat = realgen.gen_lattice(run.rng, n_max=5, depth=run.rng.choice([0, 1, 2, 3]))
@@ -322,36 +769,112 @@ def segment_cases(run, rows, cheetah, n):
         dtype = run.rng.choice([torch.float32, torch.float64])
         if run.rng.random() < 0.3:
             J.vectorise(run.rng, lat, 3)
+        spec = {"kind": "segment", "lattice": lat, "dtype": str(dtype), "history": []}
         try:
-            realgen.build(lat, dtype=dtype)
+            make(spec)
         except Exception:
             run.count("segment_build_failed")
             continue
-        known, bad, _ = examine(rows, lambda: realgen.build(lat, dtype=dtype), run.rng, cheetah, dtype, has_sck=J.has_cls(lat, "SpaceChargeKick"))
-        run.add_case(["segment", lat, str(dtype)], True)
+        if i % 4:
+            try:
+                spec["history"] = gen_history(run.rng, make(spec), n_ops=run.rng.randrange(1, 9), p_param=0.3, sweep=(i % 8 == 1),
+                                              surface_log=surface_log, skipped_log=SKIPPED)
+            except Exception as ex:
+                problems.append((spec, [f"could not generate a history: {type(ex).__name__}: {ex}"[:200]]))
+                continue
+        try:
+            known, bad, _ = examine(spec, run.rng, cheetah)
+        except Exception as ex:
+            known, bad = [], [f"examining the case raised {type(ex).__name__}: {ex}"[:300]]
+        run.add_case(["segment", spec], True)
         run.count("segment_nested" if J.has_nested(lat) else "segment_flat")
-        for k in known:
-            run.count("known_" + k)
-            run.known(KNOWN_TEXT[k])
+        run.count("history_ops", len(spec["history"]))
+        run.count("history_ops_parameter", sum(1 for o in spec["history"] if o["param"]))
+        run.count("history_ops_via_handle", sum(1 for o in spec["history"] if any(s[0] == "h" for s in o["path"])))
+        run.count("case_with_history" if spec["history"] else "case_fresh")
+        report(run, known)
         if bad:
-            problems.append(({"lattice": lat, "dtype": str(dtype)}, bad))
+            problems.append((spec, bad))
     return problems
 
 
-def beam_cases(run, cheetah, n):
+def beam_cases(run, cheetah, n, surface_log):
     problems = []
     for i in range(n):
         for bt in ("particle", "parameter"):
             for dtype in (torch.float32, torch.float64):
-                spec = realgen.gen_particle_beam(run.rng) if bt == "particle" else realgen.gen_parameter_beam(run.rng)
+                b = realgen.gen_particle_beam(run.rng) if bt == "particle" else realgen.gen_parameter_beam(run.rng)
                 if bt == "particle" and i % 2:
-                    spec["survival"] = [0.5 for _ in spec["survival"]]
-                known, bad, _ = examine({}, lambda: realgen.build_beam(spec, dtype=dtype), run.rng, cheetah, dtype, is_beam=True)
-                run.add_case(["beam", spec, str(dtype)], True)
+                    b["survival"] = [0.5 for _ in b["survival"]]
+                spec = {"kind": "beam", "beam": b, "dtype": str(dtype), "history": []}
+                if i % 3:
+                    spec["history"] = gen_history(run.rng, make(spec), p_param=0.3, sweep=(i % 3 == 1), surface_log=surface_log, skipped_log=SKIPPED)
+                try:
+                    known, bad, _ = examine(spec, run.rng, cheetah)
+                except Exception as ex:
+                    known, bad = [], [f"examining the case raised {type(ex).__name__}: {ex}"[:300]]
+                run.add_case(["beam", spec], True)
                 run.count("beam_" + bt)
+                run.count("history_ops", len(spec["history"]))
+                run.count("history_ops_parameter", sum(1 for o in spec["history"] if o["param"]))
+                run.count("case_with_history" if spec["history"] else "case_fresh")
                 if bad:
-                    problems.append(({"beam": spec, "dtype": str(dtype)}, bad))
+                    problems.append((spec, bad))
     return problems
+
+
+# ================================================================ correspondence with the history model (Ops/CloneHistory.v)
+def zq(v, unit):
+    """an exactly representable float as an integer number of `unit`s"""
+    q = float(v) / unit
+    assert q == int(q), (v, unit)
+    return int(q)
+
+
+def bend_history_cases(run, cheetah, n):
+    """RBend / Dipole histories over dyadic values (all float operations exact): the real element's face angles and angle after
+    the history, and those of its clone, against the Coq model of stored state + derived attributes (exact integers, units of
+    2^-10).  Returns (coq terms, descriptions, python-side problems)."""
+    unit = 2.0 ** -10
+    terms, descs = [], []
+    rng = run.rng
+    ATTRS = {"RBend": ["angle", "dipole_e1", "dipole_e2", "rbend_e1", "rbend_e2"], "Dipole": ["angle", "dipole_e1", "dipole_e2"]}
+    for i in range(n):
+        cname = "RBend" if i % 3 else "Dipole"
+        dtype = rng.choice([torch.float32, torch.float64])
+        dy = lambda: rng.randrange(-256, 257) * 2 * unit            # noqa: E731  even multiples: angle/2 stays on the grid
+        ang, e1, e2 = dy(), dy(), dy()
+        T = lambda v: torch.tensor(v, dtype=dtype)                   # noqa: E731
+        if cname == "RBend":
+            e = cheetah.RBend(length=T(0.5), angle=T(ang), rbend_e1=T(e1), rbend_e2=T(e2), name="b")
+        else:
+            e = cheetah.Dipole(length=T(0.5), angle=T(ang), dipole_e1=T(e1), dipole_e2=T(e2), name="b")
+        ops = []
+        for _ in range(rng.randrange(0, 7)):
+            a = rng.choice(ATTRS[cname])
+            v = dy()
+            try:
+                setattr(e, a, T(v))
+            except Exception as ex:
+                ops.append((a, v, type(ex).__name__))
+                continue
+            ops.append((a, v, None))
+        try:
+            c = e.clone()
+        except Exception:
+            c = None
+
+        def ob(x):
+            try:
+                return "(Some " + coq_list([f"{zq(getattr(x, a), unit)}%Z" for a in ("angle", "dipole_e1", "dipole_e2")]) + ")"
+            except Exception:
+                return "None"
+        good_ops = [(a, v) for a, v, ex in ops if ex is None]
+        terms.append(f"mkhcase {'true' if cname == 'RBend' else 'false'} ({zq(ang, unit)}%Z) ({zq(e1, unit)}%Z) ({zq(e2, unit)}%Z) "
+                     + coq_list([f"({coq_string(a)}, {zq(v, unit)}%Z)" for a, v in good_ops]) + f" {ob(e)} {ob(c) if c is not None else 'None'}")
+        descs.append({"cls": cname, "dtype": str(dtype), "angle": ang, "e1": e1, "e2": e2, "ops": good_ops})
+        run.count("history_model_case_" + cname)
+    return terms, descs
 
 
 def main(tier, replay=None):
@@ -362,10 +885,15 @@ def main(tier, replay=None):
     J.TMP.mkdir(parents=True, exist_ok=True)
     run.cov["rule"] = ("every Element subclass of the regenerated class table x {float32,float64} x probes with a non-default value for EVERY "
                        "constructor parameter (driven by inspect.signature; every third probe vectorised), random nested segments of real "
-                       "elements, both beam types: clone() compared attribute-wise (bit-equal tensors, dtype), storage disjointness "
-                       "(untyped_storage().data_ptr()), bit-equal tracking of both beam types, mutation of original/clone in place and by "
-                       "assignment; element clones also compared with vm_compute of the Coq clone model over the class table. "
-                       "Non-trivial = >=2 non-default parameters; distinct by full content.")
+                       "elements (also with duplicate names), both beam types; each case = construction + a HISTORY of valid assignments "
+                       "through every settable public attribute found by introspection (buffers, parameters, plain attributes, properties "
+                       "with setters over the MRO; sub-elements reached by index or through the segment's by-name handles), ~30% of the "
+                       "assigned tensors and some constructor arguments being nn.Parameter.  Checked per case: clone vs original on ALL "
+                       "observable state (buffers, parameters, public attributes, public properties; bit-equal, dtype, device), no shared "
+                       "storage over every reachable tensor, bit-equal tracking of both beam types, independence under mutation in place "
+                       "(no_grad add_, .data, one SGD step on a tracking loss) and by assignment, both directions; element clones also "
+                       "compared with vm_compute of the Coq clone model over the class table, RBend/Dipole histories over dyadic values "
+                       "with the Coq stored-state/derived-attribute model.  Non-trivial = >=2 non-default parameters; distinct by content.")
     if replay:
         return do_replay(run, replay)
     proof_ok = run.proof_stage()
@@ -381,23 +909,47 @@ def main(tier, replay=None):
         run.cov["known_findings_not_reproduced"] += [f"F12:{c}" for c in tab["offenders_gone"]]
     rows = {r["cname"]: r for r in rows_l}
 
-    terms, cases, problems = element_cases(run, rows_l, cheetah, 12 if thorough else 3)
-    seg_problems = segment_cases(run, rows, cheetah, 600 if thorough else 40)
-    beam_problems = beam_cases(run, cheetah, 40 if thorough else 4)
+    surface_log = {}
+    terms, cases, problems = element_cases(run, rows_l, cheetah, 12 if thorough else 3, surface_log)
+    seg_problems = segment_cases(run, cheetah, 600 if thorough else 40, surface_log)
+    beam_problems = beam_cases(run, cheetah, 40 if thorough else 6, surface_log)
+    run.cov["assigned_surface"] = {k: sorted(v) for k, v in sorted(surface_log.items())}
+    run.cov["undeclared_slots_not_assigned"] = {k: sorted(v) for k, v in sorted(SKIPPED.items())}
+    if os.environ.get("VERIF_C15_DEBUG"):
+        for sp, bad in problems + seg_problems + beam_problems:
+            print("DEBUG problem:", json.dumps(sp, default=str)[:600], "\n   ", bad)
     run.sample(cases[0] if cases else {})
     failing = common.run_shards(PID, "clone", PREAMBLE, terms, "c15_check", shard=60)
     run.cov["traces_validated_against_impl"] += len(terms)
+    hterms, hdescs = bend_history_cases(run, cheetah, 1500 if thorough else 150)
+    hfailing = common.run_shards(PID, "history", PREAMBLE, hterms, "hist_check", shard=250)
+    run.cov["traces_validated_against_impl"] += len(hterms)
     replay_known(run, rows, cheetah)
     run.cov["tested_only"] = ["PARTIAL: storage independence (no shared tensor storage; later mutation of one object never shows in the other) is a runtime "
-                              "fact that the Coq model does not represent; it is tested on every case (data_ptr disjointness + mutation both ways)",
-                              "bit-equal tracking of clone vs original (in the model a consequence of attribute equality; tested with both beam types)",
-                              "dtype preservation (float32/float64) of every cloned tensor"]
+                              "fact that the Coq model does not represent; it is tested on every case (data_ptr disjointness over every reachable "
+                              "tensor + mutation both ways: in place, .data, SGD step, assignment), also with nn.Parameter attributes",
+                              "bit-equal tracking of clone vs original (in the model a consequence of equal state; tested with both beam types)",
+                              "dtype/device preservation (float32/float64) of every cloned tensor",
+                              "equality of ALL observable state after arbitrary assignment histories for classes other than RBend/Dipole (for these two "
+                              "the stored-state model is proved and compared by vm_compute)",
+                              "whether the clone of an nn.Parameter attribute is again a leaf nn.Parameter is NOT specified by the property and not "
+                              "checked (on the current tree it is a non-leaf tensor requiring grad); value, dtype, storage, tracking, independence are"]
 
     allp = problems + seg_problems + beam_problems
     if allp:
-        desc, bad = allp[0]
-        run.violation(dict(desc, kind="clone", problems=bad,
-                           relation="x.clone(): same type, equal constructor-settable attributes, same dtype, no shared storage, same tracking, independent under mutation"))
+        spec, bad = allp[0]
+        if isinstance(spec, dict) and "kind" in spec:
+            small = shrink({k: v for k, v in spec.items() if k != "nondefault"}, 12345, cheetah, False)
+            try:
+                import random
+                _, bad2, _ = examine(small, random.Random(12345), cheetah)
+                if bad2:
+                    spec, bad = small, bad2
+            except Exception:
+                pass
+        run.violation(dict(spec, case_kind=spec.get("kind"), kind="clone", problems=bad,
+                           relation="x.clone() after any history of assignments: same type, equal observable state, same dtype, no shared "
+                                    "storage, same tracking, independent under later mutation"))
     elif not tab["ok"]:
         found = None
         for name in (tab["rejected"] or []):
@@ -410,6 +962,10 @@ def main(tier, replay=None):
                            "relation": "a constructor parameter given a non-default value survives clone() (class_ok obligation)"})
         else:
             run.violation({"kind": "class_table", "broken": tab["log"] or "table_ok class_table = true not provable", "rejected": tab["rejected"]}, no_input=True)
+    elif hfailing:
+        run.violation({"kind": "history_correspondence", "broken": "Coq model Ops/CloneHistory.v (hist_check) disagrees with the real RBend/Dipole: "
+                       "state after a history of assignments, or the state of its clone", "bend_history": hdescs[hfailing[0]],
+                       "relation": "angle, dipole_e1, dipole_e2 of the element after the history and of its clone equal the model's"})
     elif failing:
         run.violation({"kind": "correspondence", "broken": "Coq model Ops/Clone.v (c15_check) disagrees with Element.clone on this element",
                        "element": cases[failing[0]]}, no_input=True)
@@ -418,17 +974,21 @@ def main(tier, replay=None):
     return run.finish("proof")
 
 
-def build_from_desc(cheetah, el):
-    return getattr(cheetah, el["cls"])(**{k: v for k, v in introspect.kwargs_from_description(el["kwargs"]).items() if k != "elements"})
+def spec_from_old_element(el):
+    """replay entries written before histories existed: {"cls":..., "kwargs": describe_kwargs(...)}"""
+    kw = introspect.kwargs_from_description(el["kwargs"])
+    dtype = kw.get("dtype", torch.float32)
+    return element_spec(el["cls"], kw, dtype)
 
 
 def replay_known(run, rows, cheetah):
     for f in common.load_known_findings(PID):
         if f.get("status") != "known":
             continue
-        el = f["replay"]["element"]
+        r = f["replay"]
         try:
-            known, bad, _ = examine(rows, lambda: build_from_desc(cheetah, el), run.rng, cheetah, torch.float32)
+            spec = r["case"] if "case" in r else spec_from_old_element(r["element"])
+            known, bad, _ = examine(spec, run.rng, cheetah, light=True)
         except Exception as ex:
             known, bad = [], [str(ex)]
         if f["signature"]["tag"] in known:
@@ -438,32 +998,43 @@ def replay_known(run, rows, cheetah):
 
 
 def do_replay(run, path):
+    import random
     cheetah = common.setup_python_env()
     r = json.loads(open(path).read())
-    rows = {x["cname"]: x for x in introspect.table(cheetah)}
-    if "lattice" in r:
-        dtype = getattr(torch, r["dtype"].split(".")[-1])
-        known, bad, _ = examine(rows, lambda: realgen.build(r["lattice"], dtype=dtype), run.rng, cheetah, dtype, has_sck=J.has_cls(r["lattice"], "SpaceChargeKick"))
-    elif "beam" in r:
-        dtype = getattr(torch, r["dtype"].split(".")[-1])
-        known, bad, _ = examine({}, lambda: realgen.build_beam(r["beam"], dtype=dtype), run.rng, cheetah, dtype, is_beam=True)
-    elif "element" in r or "cls" in r:
-        el = r.get("element") if isinstance(r.get("element"), dict) and "kwargs" in r.get("element", {}) else r
-        if "elements" in el.get("kwargs", {}):
-            print("replay: a Segment probe is rebuilt with its standard children")
-            el = dict(el)
-            make = lambda: cheetah.Segment([cheetah.Drift(length=torch.tensor(0.3), name="probe_d"), cheetah.Marker(name="probe_m")], name=el["kwargs"].get("name"))  # noqa: E731
+    if r.get("kind") == "history_correspondence":
+        d = r["bend_history"]
+        T = lambda v: torch.tensor(v, dtype=getattr(torch, d["dtype"].split(".")[-1]))   # noqa: E731
+        if d["cls"] == "RBend":
+            e = cheetah.RBend(length=T(0.5), angle=T(d["angle"]), rbend_e1=T(d["e1"]), rbend_e2=T(d["e2"]))
         else:
-            make = lambda: build_from_desc(cheetah, el)  # noqa: E731
-        known, bad, _ = examine(rows, make, run.rng, cheetah, torch.float32)
-        if r.get("kind") == "class" and not bad:
-            e = make()
-            c = e.clone()
-            q = r["element"].get("parameter")
-            if q and not introspect.same_value(getattr(e, q), getattr(c, q)):
-                bad = [f"clone() lost {q}"]
-    else:
+            e = cheetah.Dipole(length=T(0.5), angle=T(d["angle"]), dipole_e1=T(d["e1"]), dipole_e2=T(d["e2"]))
+        for a, v in d["ops"]:
+            setattr(e, a, T(v))
+        c = e.clone()
+        bad = [a for a in ("angle", "dipole_e1", "dipole_e2") if not torch.equal(getattr(e, a), getattr(c, a))]
+        print("replay:", f"property FAILS on this input: clone differs in {bad}" if bad else "the clone equals the original on this input (the model disagreed about the state itself)")
+        return 1
+    spec = None
+    if r.get("case_kind") in ("element", "segment", "beam"):
+        spec = {k: r[k] for k in ("cls", "kwargs", "lattice", "beam", "dtype", "history", "param_kwargs") if k in r}
+        spec["kind"] = r["case_kind"]
+    elif "lattice" in r:
+        spec = {"kind": "segment", "lattice": r["lattice"], "dtype": r["dtype"], "history": r.get("history", [])}
+    elif "beam" in r:
+        spec = {"kind": "beam", "beam": r["beam"], "dtype": r["dtype"], "history": r.get("history", [])}
+    elif isinstance(r.get("element"), dict) and "kwargs" in r["element"]:
+        spec = spec_from_old_element(r["element"])
+    elif "cls" in r and "kwargs" in r:
+        spec = spec_from_old_element(r)
+    if spec is None:
         print("replay: nothing to replay (no failing input was recorded):", r.get("broken"))
         return 1
+    known, bad, _ = examine(spec, random.Random(12345), cheetah)
+    if r.get("kind") == "class" and not bad:
+        e = make(spec)
+        c = e.clone()
+        q = r["element"].get("parameter")
+        if q and not introspect.same_value(getattr(e, q), getattr(c, q)):
+            bad = [f"clone() lost {q}"]
     print("replay:", "property holds on this input" if not bad and not known else f"property FAILS on this input: {bad or known}")
     return 1 if (bad or known) else 0
